@@ -15,6 +15,7 @@
             switches that explains it, VIOLATION otherwise).
 """
 import json
+import os
 import re
 import time
 
@@ -64,12 +65,27 @@ def unhx(h):
     return "" if h == "-" else bytes.fromhex(h).decode("utf-8", "replace")
 
 
+def norm_val(v):
+    """Declaration values: outer whitespace stripped, whitespace runs outside quotes collapsed
+    (what tools/cssread.py does to grass's output; applied to both sides)."""
+    out, inq = [], False
+    for ch in v.strip():
+        if ch == '"':
+            inq = not inq
+        if ch in " \t\n" and not inq:
+            if out and out[-1] == " ":
+                continue
+            ch = " "
+        out.append(ch)
+    return "".join(out)
+
+
 def collect(nodes, ctx, out):
     for nd in nodes:
         if nd["type"] == "rule":
             collect(nd["children"], ctx + [nd["prelude"]], out)
         elif nd["type"] == "decl":
-            out.append((" ".join(ctx), nd["name"], nd["value"]))
+            out.append((" ".join(ctx), nd["name"], norm_val(nd["value"])))
 
 
 def group_css(css):
@@ -125,6 +141,12 @@ def canon_model(line):
         css = "-"
     if head == "ok err static-error":
         logs = "-"
+    if css != "-":
+        items = []
+        for it in css.split(","):
+            a, b, c = it.split(":")
+            items.append(f"{a}:{b}:{c if c == '!' else hx(norm_val(unhx(c)))}")
+        css = ",".join(items)
     return f"{head} | {group_css(css)} | {logs}"
 
 
@@ -250,7 +272,7 @@ def witness_stream(ck, pool):
 
 def eval_stream(ck, pool, tier, syntaxes=("scss",)):
     rng = ck.rng
-    n = 2600 if tier == "quick" else 90000
+    n = int(os.environ.get("C03_EVAL_N") or (2600 if tier == "quick" else 90000))
     cfg = G.Cfg(depth=4, max_stmts=25) if tier == "quick" else G.Cfg(depth=6, max_stmts=40)
     cases = [(p, ["corpus"]) for p in CORPUS]
     for _ in range(n):
@@ -329,7 +351,7 @@ def count_stmts(body):
 def scope_stream(ck, pool, tier):
     """Operation-sequence correspondence for the scope core."""
     rng = ck.rng
-    n = 500 if tier == "quick" else 12000
+    n = int(os.environ.get("C03_SCOPE_N") or (500 if tier == "quick" else 12000))
     trees = [(t, ["corpus"]) for t in G.D3_TREES]
     for _ in range(n):
         trees.append(G.gen_scope_tree(rng, depth=3 if tier == "quick" else 4, size=22 if tier == "quick" else 40))
@@ -482,13 +504,18 @@ def report(ck, pool, failing):
             else:
                 budget -= 1
 
-            def fails(cands, known_only=known_only):
+            heads = (f["impl"].split(" | ")[0], f["model"].split(" | ")[0])
+
+            def fails(cands, known_only=known_only, heads=heads):
                 impl, _ = run_impl(pool, [(c, None) for c in cands])
                 spec = run_model(cands, "")
                 asf = run_model(cands, DEV_ALL)
                 if known_only:
                     return [s not in MODEL_SKIP and a not in MODEL_SKIP and i == a and i != s for i, a, s in zip(impl, asf, spec)]
-                return [s not in MODEL_SKIP and a not in MODEL_SKIP and i != a for i, a, s in zip(impl, asf, spec)]
+                # the same kind of disagreement (same outcome heads), so that shrinking does not
+                # drift to a different one
+                return [s not in MODEL_SKIP and a not in MODEL_SKIP and i != a
+                        and (i.split(" | ")[0], a.split(" | ")[0]) == heads for i, a, s in zip(impl, asf, spec)]
             small = shrink(pool, f["prog"], fails, rounds=25 if known_only else 60)
             impl, asf, spec, tags = classify(pool, small)
             text = G.to_scss(small)
